@@ -21,7 +21,7 @@ AgreeChunk(r) ==
        /\ E.count = Len(r.out)                  \* option.size / array header / number of JSON objects
        /\ E.idEqualsName                        \* option.chunk = LogChunk.ID (the storage name)
        /\ E.idIncreasing                        \* unique, increasing ids
-       /\ E.tag = Tag
+       /\ E.tag = Tag                          \* the pipeline's tag, byte for byte (both sides hex encoded: tags are arbitrary bytes)
        /\ E.body = BodySize(r.out)
        /\ (Len(r.out) > 1 => /\ (MaxRecords > 0 => Len(r.out) <= MaxRecords)
                              /\ (MaxBytes > 0 => E.body <= MaxBytes))
